@@ -156,11 +156,29 @@ def physical_unconnected(topo):
     return np.array([[not adj2[a, b] for b in own] for a in own])
 
 
-def agree_with_physical_connectivity(base, var, s_idx0, s_idx1, tol):
+def near_points(case, t0):
+    """up to 3 observation points at least 1.5 segment lengths from every conductor"""
+    segs = np.concatenate([o['segs'] for o in t0.objs])
+    cen = segs.mean(0)
+    ext = np.linalg.norm(segs - cen, axis=1).max()
+    maxseg = max(np.linalg.norm(np.diff(o['segs'], axis=0), axis=1).max() for o in t0.objs)
+    pts = []
+    for u in case['nearpts']:
+        p = cen + np.array(u) * (ext + 3 * maxseg)
+        if case['env']['kind'] != 'free':
+            p[2] = abs(p[2])
+        dmin = min(rules.seg_seg_dist(p, p, o['segs'][i], o['segs'][i + 1]) for o in t0.objs for i in range(len(o['segs']) - 1))
+        if dmin >= 1.5 * maxseg:
+            pts.append(p)
+    return pts
+
+
+def agree_with_physical_connectivity(base, var, s_idx0, s_idx1, tol, pts=()):
     """classification only: recompute both descriptions with the exact-kernel eligibility taken from
     the physical connectivity instead of the program's owner-dependent bookkeeping"""
     zs = []
     ffs = []
+    nfs = {}
     A = build.mm.Angle
     for c_ in (base, var):
         m = build.model(c_)
@@ -174,8 +192,16 @@ def agree_with_physical_connectivity(base, var, s_idx0, s_idx1, tol):
             for th, ph in ((20.0, 10.0), (60.0, 100.0), (85.0, 200.0), (40.0, 300.0)):
                 m.compute_far_field(A(th, 0, 1), A(ph, 0, 1))
                 ff += [complex(np.ravel(m.far_field.e_theta)[0]), complex(np.ravel(m.far_field.e_phi)[0])]
+        # ... and the near field at the points of the case
+        for p in pts:
+            m.compute_near_field(p, [1, 1, 1], [1, 1, 1])
+            nfs.setdefault(id(c_), []).append((np.array(m.e_field[0]), np.array(m.h_field[0])))
         ffs.append(np.array(ff))
     ok = all(abs(a - b) <= tol * abs(a) for a, b in zip(*zs))
+    if ok and pts:
+        for (ea, ha), (eb, hb) in zip(nfs[id(base)], nfs[id(var)]):
+            if np.linalg.norm(ea - eb) > 3 * tol * np.linalg.norm(ea) or np.linalg.norm(ha - hb) > 3 * tol * np.linalg.norm(ha):
+                ok = False
     if ok and len(ffs[0]) and len(ffs[0]) == len(ffs[1]):
         ok = np.abs(ffs[0] - ffs[1]).max() <= tol * np.abs(ffs[0]).max()
     return ok
@@ -254,7 +280,7 @@ def check(case):
         if 'v' not in _cls:
             _cls['v'] = ''
             try:
-                if agree_with_physical_connectivity(base, var, None, None, tol):
+                if agree_with_physical_connectivity(base, var, None, None, tol, near_points(case, t0)):
                     _cls['v'] = ':exact-kernel-eligibility-depends-on-junction-owner'
             except Exception:
                 pass
@@ -311,18 +337,7 @@ def check(case):
         if err > tol:
             fails.append(('far-field' + suffix_(), 'far field differs by %.3g of its maximum (tol %.2g)' % (err, tol)))
         # near field at 3 points at least 1.5 segment lengths from every conductor
-        segs = np.concatenate([o['segs'] for o in t0.objs])
-        cen = segs.mean(0)
-        ext = np.linalg.norm(segs - cen, axis=1).max()
-        maxseg = max(np.linalg.norm(np.diff(o['segs'], axis=0), axis=1).max() for o in t0.objs)
-        pts = []
-        for u in case['nearpts']:
-            p = cen + np.array(u) * (ext + 3 * maxseg)
-            if case['env']['kind'] != 'free':
-                p[2] = abs(p[2])
-            dmin = min(rules.seg_seg_dist(p, p, o['segs'][i], o['segs'][i + 1]) for o in t0.objs for i in range(len(o['segs']) - 1))
-            if dmin >= 1.5 * maxseg:
-                pts.append(p)
+        pts = near_points(case, t0)
         for p in pts:
             m0.compute_near_field(p, [1, 1, 1], [1, 1, 1])
             m1.compute_near_field(p, [1, 1, 1], [1, 1, 1])
